@@ -15,7 +15,10 @@ from vcheck.extra import hook
 ROOT = os.path.dirname(os.path.dirname(os.path.dirname(os.path.abspath(__file__))))
 PID = "C07"
 # roots for which the analysis is exact on the unchanged tree (only the known findings are reported)
-PROVED_ROOTS = ["compileTTF", "compileOTF", "compileInterpolatableTTFs", "compileInterpolatableTTFsFromDS", "compileInterpolatableOTFsFromDS"]
+PROVED_ROOTS = [
+    "compileTTF", "compileOTF", "compileInterpolatableTTFs", "compileInterpolatableTTFsFromDS", "compileInterpolatableOTFsFromDS",
+    "compileVariableTTF", "compileVariableTTFs", "compileVariableCFF2", "compileVariableCFF2s",
+]
 ALL_ROOTS = [
     "compileTTF", "compileOTF", "compileInterpolatableTTFs", "compileInterpolatableTTFsFromDS", "compileInterpolatableOTFsFromDS",
     "compileVariableTTF", "compileVariableTTFs", "compileVariableCFF2", "compileVariableCFF2s",
